@@ -249,7 +249,7 @@ func runC23(c *Ctx) {
 			continue
 		}
 		cntWire := hasOrigin(fl.Origins(bo.X), func(o Origin) bool { return o.Kind == "outparam" && strings.Contains(o.Desc, "binary.Read") })
-		if !cntWire || !rejectEdgeFrom(p, b, b.Succs[0],false) {
+		if !cntWire || !rejectEdgeFrom(p, b, b.Succs[0], false) {
 			continue
 		}
 		// the rejected operand must be the count (32-bit), not the offset overflow test
